@@ -4717,3 +4717,9 @@ mod tests {
 		assert_eq!(cltv, trampoline_cltv_expiry + first_hop_delta);
 	}
 }
+
+// verification hook (DESIGN.md of /verif): harnesses live outside the repository and are compiled only under cfg(kani) / cfg(ldk_verif)
+#[cfg(any(kani, ldk_verif))]
+#[allow(missing_docs, dead_code, unused_imports, unused_variables)]
+#[path = "/verif/hooks/onion_utils.rs"]
+pub mod verif_contracts;
